@@ -19,6 +19,14 @@ package control
 // Not authorised => the call must return an error, no response, and no mutating dependency
 // call may be recorded.  Authorised (positive control) => the call must reach the dependency,
 // otherwise the negative checks would be vacuous (inconclusive, not a violation).
+//
+// The statement holds for every call whatever the server has served before, so the harness
+// keeps the credentials (key, signature, signed body) of every authorised request the server
+// under test has already been sent - starting with a correctly signed health check at the
+// beginning of the round - and *replays* them on other bodies and other RPCs (first / latest /
+// random earlier credential; right after the positive control of a body, that very credential
+// on the alternative body of the same RPC); a seeded subset of the stateless negative modes is
+// repeated on the same body right after it was accepted.
 
 import (
 	"bytes"
@@ -190,12 +198,32 @@ var vf32Drivers = map[string]func(rng *rand.Rand) []vf32Variant{
 var vf32NegModes = []string{
 	"nosig", "emptysig", "wrongkey", "keysubst", "bodyswap", "bodyext", "sigflip", "sigtrunc", "sigempty",
 	"sigzero", "wholereq", "crossempty", "garbagekey", "otheradmins", "strangerkey+adminsig",
+	// credentials of requests this server instance has already been sent under a correct
+	// signature, attached to the current (different) body: the first one of the round (the
+	// monitoring health check), the latest one, a random one
+	"replay-first", "replay-last", "replay-any",
+}
+
+// vf32AfterSuffix marks a mode that is run on a body right after that body was accepted under a
+// correct signature; vf32AfterModes are the stateless modes repeated there (a seeded subset).
+const vf32AfterSuffix = "@after-accept"
+
+var vf32AfterModes = []string{"nosig", "wrongkey", "keysubst", "sigflip", "bodyswap", "bodyext", "crossempty", "strangerkey+adminsig", "sigzero"}
+
+// vf32Cred is the credential of a request the reference judged authorised and that was sent to
+// the server under test: replay material for later requests.
+type vf32Cred struct {
+	rpc            string
+	key, sig, body []byte
 }
 
 type vf32Ctx struct {
 	admins   []*ecdsa.PrivateKey // configured for the server under test
 	garbage  [][]byte            // non-key entries of the configured list
 	stranger *ecdsa.PrivateKey
+
+	accepted  []vf32Cred // credentials of the authorised requests already sent to the server under test, oldest first
+	replaySrc string     // RPC the credential replayed by the last vf32Forge call was accepted on
 }
 
 func vf32Body(m vf32Msg) []byte {
@@ -207,12 +235,55 @@ func vf32Body(m vf32Msg) []byte {
 }
 
 // vf32Forge builds the request of one credential mode; ok=false when the mode does not apply.
-func vf32Forge(mode string, v vf32Variant, c vf32Ctx, rng *rand.Rand) (vf32Msg, bool) {
+func vf32Forge(mode string, v vf32Variant, c *vf32Ctx, rng *rand.Rand) (vf32Msg, bool) {
+	mode = strings.TrimSuffix(mode, vf32AfterSuffix)
 	m := v.mk()
 	admin := c.admins[rng.IntN(len(c.admins))]
 	body := vf32Body(m)
 	set := func(key, sig []byte) { m.SetSignature(&irctl.Signature{Key: key, Sign: sig}) }
+	// replay attaches an earlier authorised request's credential to the message as it is
+	replay := func(cr vf32Cred) {
+		c.replaySrc = cr.rpc
+		set(bytes.Clone(cr.key), bytes.Clone(cr.sig))
+	}
+	// earlier credentials that were given for other body bytes than the current ones
+	foreign := func() []vf32Cred {
+		var l []vf32Cred
+		for _, cr := range c.accepted {
+			if !bytes.Equal(cr.body, body) {
+				l = append(l, cr)
+			}
+		}
+		return l
+	}
 	switch mode {
+	case "replay-first": // the very first credential the server accepted (the monitoring health check)
+		if len(c.accepted) == 0 || bytes.Equal(c.accepted[0].body, body) {
+			return nil, false
+		}
+		replay(c.accepted[0])
+	case "replay-last":
+		l := foreign()
+		if len(l) == 0 {
+			return nil, false
+		}
+		replay(l[len(l)-1])
+	case "replay-any":
+		l := foreign()
+		if len(l) == 0 {
+			return nil, false
+		}
+		replay(l[rng.IntN(len(l))])
+	case "replay-own": // the credential this body has just been accepted with, on the alternative body of the same RPC
+		if v.alt == nil || len(c.accepted) == 0 {
+			return nil, false
+		}
+		cr := c.accepted[len(c.accepted)-1]
+		m = v.alt()
+		if !bytes.Equal(cr.body, body) || bytes.Equal(cr.body, vf32Body(m)) {
+			return nil, false
+		}
+		replay(cr)
 	case "valid", "otheradmins":
 		set(vf32Pub(admin), vf32Sign(admin, body))
 	case "nosig":
@@ -328,7 +399,7 @@ func vf32IsNil(v any) bool {
 func TestVerif_C32_IR(t *testing.T) {
 	r := verifkit.Start(t, "C32", "exploration")
 	defer r.Finish()
-	r.SetRule("IR control server: RPC inventory from the generated gRPC service descriptor + server interface (reflection); per round a fresh Server with 1-3 seeded administrator keys (sometimes plus non-key entries) and recording HealthChecker/NotaryManager; every RPC x body variant x credential mode (no signature, empty signature, stranger key, admin key with stranger's signature, admin signature over another body / extended body / whole request / empty data, flipped / truncated / empty / zero signature, non-key list entry, valid signature of administrators of another server, correct) goes through the generated handler as wire bytes; distinct = (RPC, body variant class, mode, number of admin keys); non-trivial = the same body was shown to reach the dependency under a correct signature")
+	r.SetRule("IR control server: RPC inventory from the generated gRPC service descriptor + server interface (reflection); per round a fresh Server with 1-3 seeded administrator keys (sometimes plus non-key entries) and recording HealthChecker/NotaryManager; every RPC x body variant x credential mode (no signature, empty signature, stranger key, admin key with stranger's signature, admin signature over another body / extended body / whole request / empty data, flipped / truncated / empty / zero signature, non-key list entry, valid signature of administrators of another server, credential of an earlier authorised request of this server instance - first (a priming health check) / latest / random / the one this body was just accepted with - replayed on this or the alternative body, stateless modes repeated right after the body was accepted, correct) goes through the generated handler as wire bytes; distinct = (RPC, body variant class, mode, number of admin keys); non-trivial = the same body was shown to reach the dependency under a correct signature")
 	r.Assume("dependencies of the IR control server are recording fakes; the server's own key (appended to the white list by New, documented) is not used as a credential")
 
 	inv := vf32Inventory(r)
@@ -337,7 +408,7 @@ func TestVerif_C32_IR(t *testing.T) {
 		rng := r.Rand("ir-round", round)
 		rec := &vf32Rec{}
 		nodeKey := vf32Key(rng)
-		c := vf32Ctx{stranger: vf32Key(rng)}
+		c := &vf32Ctx{stranger: vf32Key(rng)}
 		var allowed [][]byte
 		for i, n := 0, 1+rng.IntN(3); i < n; i++ {
 			k := vf32Key(rng)
@@ -364,6 +435,41 @@ func TestVerif_C32_IR(t *testing.T) {
 		other := New(prm, WithAllowedKeys([][]byte{vf32Pub(otherAdmin)}))
 		otherSet := [][]byte{vf32Pub(otherAdmin)}
 
+		// the correctly signed health check a monitoring tool sends before anything else: from
+		// then on the server under test has accepted a credential the replay modes can use
+		for _, md := range inv {
+			if md.MethodName != "HealthCheck" {
+				continue
+			}
+			hc := &irctl.HealthCheckRequest{Body: new(irctl.HealthCheckRequest_Body)}
+			admin := c.admins[rng.IntN(len(c.admins))]
+			body := vf32Body(hc)
+			hc.SetSignature(&irctl.Signature{Key: vf32Pub(admin), Sign: vf32Sign(admin, body)})
+			if !vf32RefAuthorised(adminSet, hc.GetSignature().GetKey(), hc.GetSignature().GetSign(), body) {
+				r.Inconclusive("harness: the priming health check is not authorised by the reference")
+				break
+			}
+			wire, err := proto.Marshal(hc)
+			if err != nil {
+				r.Inconclusive("harness: marshal priming health check: " + err.Error())
+				break
+			}
+			var resp any
+			var callErr error
+			if r.Guard(map[string]any{"server": "ir", "rpc": md.MethodName, "mode": "priming health check", "wire": hex.EncodeToString(wire)}, func() {
+				resp, callErr = md.Handler(srv, context.Background(), func(m any) error { return proto.Unmarshal(wire, m.(proto.Message)) }, nil)
+			}) {
+				break
+			}
+			r.Eval(1)
+			if callErr != nil || vf32IsNil(resp) {
+				r.Inconclusive(fmt.Sprintf("the correctly signed priming health check was not served (%v): replay modes would start without an accepted credential", callErr))
+				break
+			}
+			c.accepted = append(c.accepted, vf32Cred{rpc: md.MethodName, key: hc.GetSignature().GetKey(), sig: hc.GetSignature().GetSign(), body: body})
+			r.Count("ir_priming_health_checks_served", 1)
+		}
+
 		order := rng.Perm(len(inv))
 		for _, mi := range order {
 			md := inv[mi]
@@ -374,9 +480,16 @@ func TestVerif_C32_IR(t *testing.T) {
 			for _, v := range drv(rng) {
 				modes := append([]string(nil), vf32NegModes...)
 				rng.Shuffle(len(modes), func(i, j int) { modes[i], modes[j] = modes[j], modes[i] })
-				modes = append(modes, "valid")
+				// positive control, then: its credential on the alternative body, and a seeded
+				// subset of the stateless modes again on the body that has just been accepted
+				modes = append(modes, "valid", "replay-own")
+				for _, i := range rng.Perm(len(vf32AfterModes))[:2] {
+					modes = append(modes, vf32AfterModes[i]+vf32AfterSuffix)
+				}
 				pending := []string{}
+				controlled := false // the positive control of this body has been run and reached the dependency
 				for _, mode := range modes {
+					c.replaySrc = ""
 					req, ok := vf32Forge(mode, v, c, rng)
 					if !ok {
 						r.Count("ir_mode_not_applicable", 1)
@@ -401,7 +514,10 @@ func TestVerif_C32_IR(t *testing.T) {
 						r.Inconclusive("harness: marshal request: " + err.Error())
 						continue
 					}
-					desc := map[string]any{"server": "ir", "round": round, "rpc": md.MethodName, "variant": v.name, "mode": mode, "admins": len(c.admins), "garbage_entries": len(c.garbage), "wire": hex.EncodeToString(wire)}
+					desc := map[string]any{"server": "ir", "round": round, "rpc": md.MethodName, "variant": v.name, "mode": mode, "admins": len(c.admins), "garbage_entries": len(c.garbage), "wire": hex.EncodeToString(wire), "authorised_requests_served_before": len(c.accepted)}
+					if c.replaySrc != "" {
+						desc["credential_replayed_from"] = c.replaySrc
+					}
 					m0, r0 := rec.marks()
 					var resp any
 					var callErr error
@@ -415,6 +531,9 @@ func TestVerif_C32_IR(t *testing.T) {
 					key := "C32|ir|" + md.MethodName + "|" + mode
 					if authorised {
 						r.Count("ir_authorised_calls", 1)
+						if target == srv { // whatever the outcome: the server has seen this credential under a correct signature
+							c.accepted = append(c.accepted, vf32Cred{rpc: md.MethodName, key: bytes.Clone(sig.GetKey()), sig: bytes.Clone(sig.GetSign()), body: vf32Body(req)})
+						}
 						reached := (callErr == nil && !vf32IsNil(resp)) || len(muts) > 0 || len(reads) > 0
 						if !reached {
 							r.Inconclusive(fmt.Sprintf("positive control failed: correctly signed %s (%s) did not reach the dependency: %v", md.MethodName, v.name, callErr))
@@ -429,6 +548,7 @@ func TestVerif_C32_IR(t *testing.T) {
 						for _, p := range pending {
 							r.Distinct(p)
 						}
+						pending, controlled = nil, true
 						if round == 0 {
 							r.Sample(map[string]any{"server": "ir", "rpc": md.MethodName, "variant": v.name, "mode": mode, "error": fmt.Sprint(callErr), "dependency_calls": append(muts, reads...)})
 						}
@@ -455,9 +575,24 @@ func TestVerif_C32_IR(t *testing.T) {
 					if len(reads) > 0 {
 						r.Count("ir_unauthorised_calls_that_read_a_dependency", 1)
 					}
+					if c.replaySrc != "" {
+						r.Count("ir_replayed_credential_calls", 1)
+						if c.replaySrc != md.MethodName {
+							r.Count("ir_replayed_credential_calls_cross_rpc", 1)
+						}
+						r.Seen("ir_replay_from_to", c.replaySrc+"->"+md.MethodName)
+					}
+					if strings.HasSuffix(mode, vf32AfterSuffix) {
+						r.Count("ir_unauthorised_calls_right_after_accept_of_same_body", 1)
+					}
 					if !bad {
 						r.Count("ir_unauthorised_rejected_clean", 1)
-						pending = append(pending, fmt.Sprintf("ir|%s|%s|%s|%d", md.MethodName, strings.SplitN(v.name, ",", 2)[0], mode, len(c.admins)))
+						dk := fmt.Sprintf("ir|%s|%s|%s|%d", md.MethodName, strings.SplitN(v.name, ",", 2)[0], mode, len(c.admins))
+						if controlled {
+							r.Distinct(dk)
+						} else {
+							pending = append(pending, dk)
+						}
 					}
 					if round == 0 && mode == "bodyswap" {
 						r.Sample(map[string]any{"server": "ir", "rpc": md.MethodName, "variant": v.name, "mode": mode, "error": fmt.Sprint(callErr)})
@@ -482,6 +617,9 @@ func TestVerif_C32_IR(t *testing.T) {
 	}
 	if r.Counter("ir_authorised_reached_dependency") == 0 {
 		r.Inconclusive("no positive control reached a dependency")
+	}
+	if r.Counter("ir_replayed_credential_calls_cross_rpc") == 0 || r.Counter("ir_unauthorised_calls_right_after_accept_of_same_body") == 0 {
+		r.Inconclusive("no credential of an earlier authorised request was replayed on another RPC, or no unauthorised request followed the acceptance of its body: the history-dependent part of the check is vacuous")
 	}
 }
 
